@@ -5,6 +5,7 @@ go 1.23.0
 require (
 	github.com/ProtonMail/go-crypto v1.2.0
 	github.com/google/go-containerregistry v0.20.3
+	github.com/google/uuid v1.6.0
 	github.com/sigstore/sigstore v1.9.3
 	github.com/spf13/cobra v1.9.1
 	github.com/sylabs/sif/v2 v2.0.0
@@ -13,7 +14,6 @@ require (
 require (
 	github.com/cloudflare/circl v1.6.0 // indirect
 	github.com/go-jose/go-jose/v4 v4.0.5 // indirect
-	github.com/google/uuid v1.6.0 // indirect
 	github.com/letsencrypt/boulder v0.0.0-20240620165639-de9c06129bec // indirect
 	github.com/opencontainers/go-digest v1.0.0 // indirect
 	github.com/secure-systems-lab/go-securesystemslib v0.9.0 // indirect
